@@ -1,4 +1,4 @@
-add("C12", "checks/c11_c12_status.c", ["default-asan", "noinfo-plain", "c89-plain", "custreg-plain", "optmin-plain", "custreg89-plain", "custreg34-plain", "heap-plain"], ["default-asan", "default-plain", "noinfo-plain", "noinfo-asan", "c89-plain", "custreg-plain", "custreg-asan", "optmin-plain", "custreg89-plain", "custreg34-plain", "heap-plain"],
+add("C12", "checks/c11_c12_status.c", ["default-asan", "noinfo-plain", "c89-plain", "custreg-plain", "optmin-plain", "custreg89-plain", "custreg34-plain", "custchain-plain", "heap-plain"], ["default-asan", "default-plain", "noinfo-plain", "noinfo-asan", "c89-plain", "custreg-plain", "custreg-asan", "optmin-plain", "custreg89-plain", "custreg34-plain", "custchain-plain", "heap-plain"],
     "cases = single operations executed on the real library with the registers read back before and after and the control callback "
     "recorded (value + status byte at the moment of the call). Phase sweep: all 65536 int16_t codes pushed on a fresh context "
     "(ESR = 0), on a context with ESR preset, and on a full queue (3 x 65536 pushes), ESR compared with the class computed as "
